@@ -21,14 +21,16 @@ def frames():
     import pandas
 
     d1 = pandas.DataFrame({"x": [1.0, 2.0, 4.0, 9.0, 3.0], "w": [2.0, 1.0, 0.5, 3.0, float("nan")],
-                           "A": pandas.Series(["p", "q", "r", "p", "q"], dtype=object), "B": pandas.Series(["u", "v", "u", "v", "u"], dtype=object)})
+                           "A": pandas.Series(["p", "q", "r", "p", "q"], dtype=object), "B": pandas.Series(["u", "v", "u", "v", "u"], dtype=object),
+                           "D": pandas.Series(["h", "h", "g", "g", "i"], dtype=object), "E": pandas.Series(["m", "n", "n", "m", "m"], dtype=object)})
     d2 = pandas.DataFrame({"x": [10.0, -2.0, 0.0, 5.0], "w": [1.0, 1.5, 2.5, 0.25],
-                           "A": pandas.Series(["r", "q", "q", "p"], dtype=object), "B": pandas.Series(["v", "v", "u", "u"], dtype=object)})
+                           "A": pandas.Series(["r", "q", "q", "p"], dtype=object), "B": pandas.Series(["v", "v", "u", "u"], dtype=object),
+                           "D": pandas.Series(["g", "h", "i", "h"], dtype=object), "E": pandas.Series(["n", "m", "n", "m"], dtype=object)})
     return d1, d2
 
 
-FORMULA = "scale(x) + A + A:B + poly(w, 2) + C(B, contr.sum):x"
-UFORMULA = "center(x) + A + bs(w, df=3) + B:A"
+FORMULA = "scale(x) + A + B + A:B + poly(w, 2) + C(B, contr.sum):x + A:D:E + B:D:E:A"
+UFORMULA = "center(x) + B + A + bs(w, df=3) + D:B:E + E:D:A:B"
 
 
 def fp_frame(df) -> str:
